@@ -9,7 +9,7 @@ CLAIMED = {
    tech="deterministic simulation: seeded gate scheduler over real threads + reference-model read-back"),
 }
 CLAIMED["C13"] = dict(cat="exploration",
-   text="Seeded simulation: the same backup (and, in other batch kinds, the same prune or the same copy into a fresh repository with another key) is executed R times from scratch under different gate-release policies (FIFO, random, starve-one-role, PCT), pariter pool sizes 1-3, pack-size limits from one blob per pack upward and compression settings; the snapshot tree id and the set of reachable (type,id) blobs must agree across executions, every execution must terminate (no-progress detector), and an independent decoder checks that every blob of every stored pack is indexed and every referenced blob is indexed in a live pack.",
+   text="Seeded simulation: the same backup (and, in other batch kinds, the same prune or the same copy into a fresh repository with another key) is executed R times (plus, rarely, a free-running scenario on a directory with 1500-9000 distinct sub-directories whose backup, check, prune and copy must terminate) from scratch under different gate-release policies (FIFO, random, starve-one-role, PCT), pariter pool sizes 1-3, pack-size limits from one blob per pack upward and compression settings; the snapshot tree id and the set of reachable (type,id) blobs must agree across executions, every execution must terminate (no-progress detector), and an independent decoder checks that every blob of every stored pack is indexed and every referenced blob is indexed in a live pack.",
    ref="5 C13", note="Interleavings are explored at storage/source-call granularity plus one hook before a written pack is indexed; inside a step the threads run FIFO-serialised. Trusted: the simulator's own pack/index decoder.",
    tech="deterministic simulation: same command re-executed under many seeded schedules, differential oracle + independent store audit")
 CLAIMED["C03"] = dict(cat="fault_enumeration",
